@@ -14,8 +14,9 @@ ones are covered by the `agrees` obligations and may be rewritten freely.
 import re, sys
 
 PINNED = [
- "AbstractPack.Write", "AbstractPack.Read",
- "WritePack", "ReadPack", "ToBytesPack", "ToPack",
+ # AbstractPack.Write / Read are interpreted since round 8 (header.go, Golib/Layout/HeaderProg.lean): not pinned as text
+ "WritePack", "ReadPack", "ToBytesPack", "ToBytesPackECB", "ToPack",
+ "LogSinkPack.GetContentBytes", "LogSinkPack.SetContentBytes",
   "LogSinkPack.ResetTagHash",
   "toHeaderBytes", "toHeaderObject",
  "CompositePack.Write", "CompositePack.Read",
